@@ -414,6 +414,76 @@ impl<'ast, 's> Visit<'ast> for Finder<'s> {
     }
 }
 
+/// R17: `fn f(P) -> R { S..; || -> Result<_, Error> { B }().into_c_return() }` becomes the hoisted body
+/// `fn f__body(P) -> Result<T, Error> { S..; B }` (T from the hint `r17_ret`); the dropped wrapper is
+/// `f(P) = f__body(P).into_c_return()`.  `?` inside the closure returns from the closure, so the
+/// hoisted function is the exact desugaring; the statements S.. run in the same order.
+fn apply_r17(text: &str, hints: &serde_json::Value) -> Result<String, String> {
+    let f: syn::ImplItemFn = syn::parse_str(text).map_err(|e| format!("lost anchor: R17: function does not parse: {e}"))?;
+    let ret = hints.get("r17_ret").and_then(|v| v.as_str()).ok_or("lost anchor: R17 needs the hint r17_ret")?;
+    let stmts = &f.block.stmts;
+    let last = stmts.last().ok_or("lost anchor: R17: empty body")?;
+    let tail = match last {
+        syn::Stmt::Expr(e, None) => e,
+        _ => return Err("lost anchor: R17: the body does not end in an expression".into()),
+    };
+    let mc = match tail {
+        syn::Expr::MethodCall(mc) if mc.method == "into_c_return" && mc.args.is_empty() => mc,
+        _ => return Err("lost anchor: R17: the body does not end in `<closure>().into_c_return()`".into()),
+    };
+    // allow adapters between the closure call and into_c_return, e.g. `.map(OwnedFd::from)`
+    let mut recv = &*mc.receiver;
+    while let syn::Expr::MethodCall(inner) = recv {
+        recv = &*inner.receiver;
+    }
+    let call = match recv {
+        syn::Expr::Call(c) if c.args.is_empty() => c,
+        _ => return Err("lost anchor: R17: receiver of into_c_return is not an immediately invoked closure".into()),
+    };
+    let mut func = &*call.func;
+    while let syn::Expr::Paren(p) = func {
+        func = &*p.expr;
+    }
+    let clo = match func {
+        syn::Expr::Closure(c) if c.inputs.is_empty() => c,
+        _ => return Err("lost anchor: R17: callee is not a parameterless closure".into()),
+    };
+    let body = match &*clo.body {
+        syn::Expr::Block(b) => &b.block,
+        _ => return Err("lost anchor: R17: closure body is not a block".into()),
+    };
+    for s in &stmts[..stmts.len() - 1] {
+        if !matches!(s, syn::Stmt::Local(_)) {
+            return Err("lost anchor: R17: statements before the closure must be `let` bindings".into());
+        }
+    }
+    // assemble: signature text up to the return type, new return type, `{`, leading lets, closure block contents
+    let sig_end = match &f.sig.output {
+        syn::ReturnType::Type(arrow, _) => arrow.spans[0].byte_range().start,
+        syn::ReturnType::Default => f.block.brace_token.span.open().byte_range().start,
+    };
+    let name = f.sig.ident.to_string();
+    let id_r = f.sig.ident.span().byte_range();
+    let mut head = String::new();
+    head.push_str(&text[..id_r.start]);
+    head.push_str(&format!("{name}__body"));
+    head.push_str(&text[id_r.end..sig_end]);
+    let mut out = head;
+    out.push_str(&format!("-> Result<{ret}, Error> {{\n"));
+    if stmts.len() > 1 {
+        let a = range_of(&stmts[0]).start;
+        let b = range_of(&stmts[stmts.len() - 2]).end;
+        out.push_str("    ");
+        out.push_str(&text[a..b]);
+        out.push('\n');
+    }
+    let bo = body.brace_token.span.open().byte_range().end;
+    let bc = body.brace_token.span.close().byte_range().start;
+    out.push_str(&text[bo..bc]);
+    out.push_str("}\n");
+    Ok(out)
+}
+
 pub fn run_rules(
     text: &str,
     rules: &[String],
@@ -423,6 +493,10 @@ pub fn run_rules(
     let mut work = text.to_string();
     if rules.is_empty() {
         return Ok(work);
+    }
+    if rules.iter().any(|r| r == "R17") {
+        work = apply_r17(&work, hints)?;
+        *fired.entry("R17".into()).or_insert(0) += 1;
     }
     for _pass in 0..400 {
         let parsed: syn::ImplItemFn = syn::parse_str(&work)
